@@ -1,3 +1,4 @@
+import Proofs.Lemmas.OabCount
 import Proofs.Lemmas.Count
 /-!
 # C07 — OK means complete: output never exceeds, and on success equals, the declared size (CAB)
@@ -32,3 +33,28 @@ theorem C07_count_law_stored (files : Files) (bs : Nat) (e : Err) : CountLaw fil
   countLaw_none files bs e
 
 end MsPack.Cab
+
+/-! ## OAB -/
+namespace MsPack.Oab
+open MsPack MsPack.Generated
+
+/-- `oabd_decompress`, **every** input file: the bytes that reached the output never exceed the header's
+    TargetSize, and MSPACK_ERR_OK means exactly TargetSize bytes — given the LZX decoder's counting law
+    (`LzxCount`: `lzxd_decompress(lzx, n)` writes at most `n` bytes, exactly `n` on OK; stored blocks and
+    `copy_fh` are proved) -/
+theorem C07_oab_written_le_target (fuel bufSize : Nat) (hL : LzxCount fuel bufSize) (fill : UInt8) (file : Bytes)
+    (outIsIn : Bool) (e : Err) (w : Bytes)
+    (h : decompress fuel bufSize fill (some file) outIsIn = .ok ⟨e, some w⟩) :
+    ∃ hdr infh, (⟨file, 0⟩ : Rd).readExact oabheadSIZEOF = some (hdr, infh) ∧
+      w.length ≤ u32At hdr oabhead_TargetSize ∧ (e = .ok → w.length = u32At hdr oabhead_TargetSize) :=
+  decompress_count fuel bufSize hL fill file outIsIn e w h
+
+/-- the same for `oabd_decompress_incremental`, every patch and base file -/
+theorem C07_oab_patch_written_le_target (fuel bufSize : Nat) (hL : LzxCount fuel bufSize) (fill : UInt8) (file : Bytes)
+    (base : Option Bytes) (outIsIn outIsBase : Bool) (e : Err) (w : Bytes)
+    (h : decompressIncremental fuel bufSize fill (some file) base outIsIn outIsBase = .ok ⟨e, some w⟩) :
+    ∃ hdr infh, (⟨file, 0⟩ : Rd).readExact patchheadSIZEOF = some (hdr, infh) ∧
+      w.length ≤ u32At hdr patchhead_TargetSize ∧ (e = .ok → w.length = u32At hdr patchhead_TargetSize) :=
+  decompressIncremental_count fuel bufSize hL fill file base outIsIn outIsBase e w h
+
+end MsPack.Oab
